@@ -69,6 +69,8 @@ def main(argv=None):
     ap.add_argument("--case-timeout", type=int, default=20)
     ap.add_argument("--digests", action="store_true")
     args = ap.parse_args(argv)
+    if args.tier == "thorough" and args.case_timeout == 20:
+        args.case_timeout = 120  # thorough programs are up to ~5x larger
 
     faulthandler.enable(file=sys.__stderr__)
     from simq import env as simenv  # installs capture before asynq is imported
